@@ -4,7 +4,7 @@
 #   clean tree: demo passes; patched tree: builds, pinned suite keeps baseline green, demo fails.
 # On success stores /verif/seeded/<seed-id>/{patch.diff,demo.sh,meta.json,verify.log}
 OUT="$1"; N="$2"; ID="$3"
-WT=/tmp/wt/verify
+WT="${VERIFY_WT:-/tmp/wt/verify}"
 LOG="$OUT/verify$N.log"
 exec > >(tee "$LOG") 2>&1
 if [ ! -d "$WT" ]; then
